@@ -650,7 +650,7 @@ func Document(t *rapid.T, o DocOpts) *DocCase {
 		c.Doc.Errors = append([]jsonapi.Error{}, c.Errors...)
 	}
 
-	c.PrePath = rapid.SampledFrom([]string{"", "/", "https://h", "https://h/api/", "http://x/a b", "/p\"q", "https://h/my%20api", "/100%/", "/%s/%d%v"}).Draw(t, "prepath")
+	c.PrePath = rapid.SampledFrom([]string{"", "/", "https://h", "https://h/api/", "http://x/a b", "/p\"q", "https://h/my%20api", "/100%/", "/%s/%d%v", "https://h/api//", "//"}).Draw(t, "prepath")
 	c.Doc.PrePath = c.PrePath
 
 	// Selection and relationship data per type.
@@ -781,6 +781,20 @@ func Document(t *rapid.T, o DocOpts) *DocCase {
 		// a request for a collection.
 		if rapid.Bool().Draw(t, "nodata-colurl") {
 			u.Fragments, u.ResID, u.IsCol = u.Fragments[:1], "", true
+		}
+	}
+
+	// The request may have asked for inclusions (whether or not the answer
+	// carries any: an error answer does not).
+	if rts := ss.Type(u.ResType); rts != nil && len(rts.Rels) > 0 && rapid.IntRange(0, 3).Draw(t, "urlinclude") == 0 {
+		for i, n := 0, rapid.IntRange(1, 2).Draw(t, "urlinclude-n"); i < n; i++ {
+			path := []jsonapi.Rel{rts.Rels[rapid.IntRange(0, len(rts.Rels)-1).Draw(t, "urlinclude-rel")]}
+
+			if tts := ss.Type(path[0].ToType); tts != nil && len(tts.Rels) > 0 && rapid.Bool().Draw(t, "urlinclude-deeper") {
+				path = append(path, tts.Rels[rapid.IntRange(0, len(tts.Rels)-1).Draw(t, "urlinclude-rel2")])
+			}
+
+			u.Params.Include = append(u.Params.Include, path)
 		}
 	}
 
